@@ -386,7 +386,8 @@ func (an *Analysis) createType(typ types.Type, ctx context) Type {
 	}
 
 	if alias, isAlias := typ.(*types.Alias); isAlias {
-		typ = types.Unalias(alias)
+		// an alias is not a type of its own : share the (unique) node of the type it denotes
+		return an.handleType(types.Unalias(alias), ctx)
 	}
 
 	// special case for time.Time, which require the name information
